@@ -26,10 +26,12 @@ MonNoCrash == Written => ~cur.crashed /\ cur.parse_error = ""
 MonEdit == okedit
 MonLoad == (Written /\ ~cur.crashed /\ cur.parse_error = "") => LoadContract(cur.m)
 MonFormat == (Written /\ ~cur.crashed /\ cur.parse_error = "") => FormatContract(cur.m)
+(* what was handed out stays what it was: the bytes returned for an earlier state of the file (and for this one) are not changed by later calls *)
+MonKept == Written => cur.kept
 (* the monitors as invariants stop at the first failing event; in collecting mode they are evaluated on every new state
    and the failing events are gathered, so that one run judges every behaviour *)
 Failing == (IF MonNoCrash THEN {} ELSE {"MonNoCrash"}) \cup (IF MonEdit THEN {} ELSE {"MonEdit"})
-           \cup (IF MonLoad THEN {} ELSE {"MonLoad"}) \cup (IF MonFormat THEN {} ELSE {"MonFormat"})
+           \cup (IF MonLoad THEN {} ELSE {"MonLoad"}) \cup (IF MonFormat THEN {} ELSE {"MonFormat"}) \cup (IF MonKept THEN {} ELSE {"MonKept"})
 Gather == bad' = IF Collect /\ Failing' # {} THEN Append(bad, <<l, Failing'>>) ELSE bad
 TraceNext == (Reset \/ Load \/ Edit) /\ Gather
 TraceSpec == TraceInit /\ [][TraceNext]_tvars
